@@ -263,7 +263,9 @@ def sv_quoted(rng, reader):
         content, cls = f"{w()}-\n   {w()}", "quoted:dash-continuation"
     else:
         # many dash continuations in one string
-        content = w() + "".join(rng.choice(("-\n", "-\n   ", "-\r\n  ")) + w()
+        # (LF only: a reader that keeps strings verbatim would show whether
+        # the text came through a file opened in text mode)
+        content = w() + "".join(rng.choice(("-\n", "-\n   ", "-\n ")) + w()
                                 for _ in range(rng.randint(9, 14)))
         cls = "quoted:many-dash-continuations"
     expected = fold(content) if reader in ODL_FAMILY_READ else content
